@@ -86,7 +86,7 @@ CHECKS_ALL = {
          "Rounding of the two means is not fixed by the statement: anything in [floor, ceil] is accepted.",
          "DESIGN.md §2 C19"),
  "C20": ("build-status monitor over the completely enumerated feature powerset (cargo check exit status per configuration against /repo's working tree) plus a probe binary built and run per named-feature configuration under a panic monitor",
-         "The property's observable is the build, so each configuration is treated as a workload whose first event is 'it compiled' (cargo check --no-default-features --features <set>, `--lib` alone first — the consumer's view, free of the feature unification the examples' dev-dependencies cause — then `--examples`) and, for the named-feature configurations, whose second event is a probe binary exercising the always-present API. quick: model 2^3, decode 2^2, facade 2^3, data named 2^2 + every optional dependency alone / every pair / all-but-one / all / seeded subsets (117 cells, 25 probe runs). thorough: all 1,024 data combinations. The space is finite and thorough enumerates it completely.",
+         "The property's observable is the build, so each configuration is treated as a workload whose first event is 'it compiled' (cargo check --no-default-features --features <set>, `--lib` alone first — the consumer's view, free of the feature unification the examples' dev-dependencies cause — then `--examples`) and, for the named-feature configurations, whose second event is a probe binary exercising the always-present API. quick: model 2^3, decode 2^2, facade 2^3, data named 2^2 + every optional dependency alone / every pair / all-but-one / all / a seeded greedy covering selection that stops when every 6-way on/off interaction of the ten data features occurs in a checked configuration (about 210 cells, 25 probe runs; measured 5/6/7-way coverage in the evidence: 100 % / 100 % / ~90 %). thorough: all 1,024 data combinations. The space is finite and thorough enumerates it completely.",
          "cargo check type-checks but does not link (the probe runs do); examples' dev-dependencies use workspace defaults; this check sits at the edge of the runtime-monitoring family (DESIGN.md §2 C20).",
          "DESIGN.md §2 C20"),
 }
